@@ -270,14 +270,25 @@ func substBF(f *BF, m map[ssa.Value]*Sym) *BF {
 
 // helperBF: the boolean formula computed by a pure, loop-free boolean helper
 // of the analysed packages, over its own parameters; nil if it is not of that shape.
-func (p *Prog) helperBF(fn *ssa.Function) *BF {
+func (p *Prog) helperBF(fn *ssa.Function) *BF { return p.helperBFMode(fn, false) }
+
+// helperNonNilBF: for a pure, loop-free helper returning an interface or pointer, the formula
+// (over its parameters) under which the result is non-nil; nil if not of that shape.
+func (p *Prog) helperNonNilBF(fn *ssa.Function) *BF { return p.helperBFMode(fn, true) }
+
+func (p *Prog) helperBFMode(fn *ssa.Function, nonNil bool) *BF {
 	if p.helperCache == nil {
 		p.helperCache = map[*ssa.Function]*BF{}
+		p.helperNilCache = map[*ssa.Function]*BF{}
 	}
-	if f, ok := p.helperCache[fn]; ok {
+	cache := p.helperCache
+	if nonNil {
+		cache = p.helperNilCache
+	}
+	if f, ok := cache[fn]; ok {
 		return f
 	}
-	p.helperCache[fn] = nil // recursion guard
+	cache[fn] = nil // recursion guard
 	if fn.Blocks == nil || len(fn.Blocks) > 24 || fn.Signature.Results().Len() != 1 {
 		return nil
 	}
@@ -285,7 +296,13 @@ func (p *Prog) helperBF(fn *ssa.Function) *BF {
 	if pk == nil || !isOurPath(pk.Path()) || !p.IsPure(fn) {
 		return nil
 	}
-	if b, ok := fn.Signature.Results().At(0).Type().Underlying().(*types.Basic); !ok || b.Kind() != types.Bool {
+	if nonNil {
+		switch fn.Signature.Results().At(0).Type().Underlying().(type) {
+		case *types.Interface, *types.Pointer:
+		default:
+			return nil
+		}
+	} else if b, ok := fn.Signature.Results().At(0).Type().Underlying().(*types.Basic); !ok || b.Kind() != types.Bool {
 		return nil
 	}
 	fi := p.Info(fn)
@@ -297,27 +314,9 @@ func (p *Prog) helperBF(fn *ssa.Function) *BF {
 			}
 		}
 	}
-	var disj []*BF
-	for _, ret := range returnsOf(fi) {
-		paths, ok := fi.Paths(ret, -1)
-		if !ok || len(paths) > 64 {
-			return nil
-		}
-		val := fi.valueBF(fi.RetVal(ret, 0), 1)
-		for _, pth := range paths {
-			disj = append(disj, bfAnd(append(append([]*BF{}, pth...), val)...))
-		}
-	}
-	f := bfOr(disj...)
-	am := map[string]*BAtom{}
-	f.atoms(am)
-	if len(am) > 8 {
-		return nil
-	}
-	// every atom must be re-instantiable and free of callee-local values
-	for _, a := range am {
+	isLocal := func(a *BAtom) bool {
 		if a.Src == nil {
-			return nil
+			return true
 		}
 		local := false
 		a.Src.Walk(func(x *Sym) {
@@ -330,11 +329,79 @@ func (p *Prog) helperBF(fn *ssa.Function) *BF {
 				}
 			}
 		})
-		if local {
+		return local
+	}
+	var disj, disjNil []*BF
+	for _, ret := range returnsOf(fi) {
+		paths, ok := fi.Paths(ret, -1)
+		if !ok || len(paths) > 64 {
+			return nil
+		}
+		var val *BF
+		isNil := false
+		if nonNil {
+			rv := fi.RetVal(ret, 0)
+			if k, isK := rv.(*ssa.Const); isK && k.Value == nil {
+				isNil = true
+			} else if !isNonNilValue(rv) {
+				return nil
+			}
+			val = bfConst(true)
+		} else {
+			val = fi.valueBF(fi.RetVal(ret, 0), 1)
+		}
+		for _, pth := range paths {
+			c := bfAnd(append(append([]*BF{}, pth...), val)...)
+			if isNil {
+				disjNil = append(disjNil, c)
+			} else {
+				disj = append(disj, c)
+			}
+		}
+	}
+	f := bfOr(disj...)
+	if nonNil {
+		// Conditions on callee-local values (an error that leads to a panic) are quantified away on
+		// both outcome sets; the weakened "non-nil" formula may stand for the nil test in either
+		// polarity only if the two weakened sets stay mutually exclusive (given that the call returned).
+		g := bfOr(disjNil...)
+		keep := func(a *BAtom) bool { return !isLocal(a) }
+		hasLocal := func(h *BF) bool {
+			am := map[string]*BAtom{}
+			h.atoms(am)
+			for _, a := range am {
+				if isLocal(a) {
+					return true
+				}
+			}
+			return false
+		}
+		if hasLocal(f) {
+			if f = projectBF(f, keep); f == nil {
+				return nil
+			}
+		}
+		if hasLocal(g) {
+			if g = projectBF(g, keep); g == nil {
+				return nil
+			}
+		}
+		if ok, _, tooBig := truthTable([]*BF{f, g}, func(env map[string]bool) bool { return !(f.eval(env) && g.eval(env)) }); !ok || tooBig {
 			return nil
 		}
 	}
-	p.helperCache[fn] = f
+	am := map[string]*BAtom{}
+	f.atoms(am)
+	if len(am) > 8 {
+		return nil
+	}
+	// every atom must be re-instantiable and free of callee-local values
+	for _, a := range am {
+		if isLocal(a) {
+			return nil
+		}
+	}
+	cache[fn] = f
 	return f
 }
 
@@ -389,6 +456,26 @@ func (fi *FuncInfo) valueBF1(v ssa.Value, depth int) *BF {
 	case *ssa.BinOp:
 		// comparison of a merged value with a constant: expand per incoming value
 		if x.Op == token.EQL || x.Op == token.NEQ {
+			// nil test of a helper's result: use the helper's body
+			if call, k := asCallNil(x.X, x.Y); call != nil && depth < 4 {
+				if callee := call.Common().StaticCallee(); callee != nil {
+					if hf := fi.P.helperNonNilBF(callee); hf != nil {
+						args := callArgs(call)
+						if len(args) == len(callee.Params) {
+							m := map[ssa.Value]*Sym{}
+							for i, prm := range callee.Params {
+								m[prm] = fi.Sym(args[i])
+							}
+							f := substBF(hf, m)
+							_ = k
+							if x.Op == token.EQL {
+								return bfNot(f)
+							}
+							return f
+						}
+					}
+				}
+			}
 			ph, k := asPhiConst(x.X, x.Y)
 			if ph != nil {
 				eq := x.Op == token.EQL
@@ -412,6 +499,20 @@ func (fi *FuncInfo) valueBF1(v ssa.Value, depth int) *BF {
 		}
 	}
 	return atomBF(fi.Sym(v), true)
+}
+
+func asCallNil(a, b ssa.Value) (*ssa.Call, *ssa.Const) {
+	if c, ok := a.(*ssa.Call); ok {
+		if k, ok := b.(*ssa.Const); ok && k.Value == nil {
+			return c, k
+		}
+	}
+	if c, ok := b.(*ssa.Call); ok {
+		if k, ok := a.(*ssa.Const); ok && k.Value == nil {
+			return c, k
+		}
+	}
+	return nil, nil
 }
 
 func asPhiConst(a, b ssa.Value) (*ssa.Phi, *ssa.Const) {
